@@ -741,6 +741,7 @@ func main() {
 	reps := flag.Int("reps", 1, "executions per case")
 	wd := flag.Int("watchdog", 3000, "watchdog in ms")
 	maxTraces := flag.Int("maxtraces", 1<<30, "record at most this many traces")
+	maxHangs := flag.Int("maxhangs", 4, "stop after this many reproduced hangs (each costs a watchdog period and leaks goroutines)")
 	flag.Parse()
 
 	in, err := os.Open(*casesPath)
@@ -777,8 +778,8 @@ func main() {
 	sc.Buffer(make([]byte, 1<<20), 1<<28)
 	r := &runner{tr: tr, watchdog: time.Duration(*wd) * time.Millisecond, baseG: runtime.NumGoroutine()}
 	enc := json.NewEncoder(ow)
-	ncase, ntrace, nev := 0, 0, 0
-	for sc.Scan() {
+	ncase, ntrace, nev, nhang := 0, 0, 0, 0
+	for sc.Scan() && nhang < *maxHangs {
 		var tc testCase
 		if err := json.Unmarshal(sc.Bytes(), &tc); err != nil {
 			fmt.Fprintln(os.Stderr, "bad case:", err)
@@ -794,6 +795,9 @@ func main() {
 			gateSeed = mix(*seed*1000003 + uint64(tc.ID)*131 + uint64(rep))
 			res, events := r.runCase(&tc, rep)
 			_ = enc.Encode(res)
+			if res.Hang {
+				nhang++
+			}
 			if tw != nil && res.Traced && ntrace < *maxTraces {
 				hdr, _ := json.Marshal(map[string]any{"ev": "case", "id": tc.ID, "rep": rep, "cfg": tc.Cfg, "order": tc.Order})
 				tw.Write(hdr)
